@@ -594,7 +594,7 @@ class TreeStream(Stream):
         self.cache = {}
 
     def cases(self, tier, rng):
-        n = 1500 if tier == "thorough" else 100
+        n = 1250 if tier == "thorough" else 100
         for i in range(n):
             case = gen_tree(rng)
             if tier != "thorough" and i >= 20:
